@@ -489,6 +489,15 @@ class Executor:
         st.alias[dst] = src
 
     # ---- operands
+    def enum_table(self, path):
+        """variant list of the enum named by a (possibly qualified, possibly generic) MIR path"""
+        comps = [c for c in re.sub(r"<.*>", "", path).split("::") if c]
+        if not comps:
+            return None
+        if len(comps) >= 2 and (comps[-2] + "::" + comps[-1]) in self.enums:
+            return self.enums[comps[-2] + "::" + comps[-1]]
+        return self.enums.get(comps[-1])
+
     def const_val(self, text, want_sort=None):
         t = text.strip()
         if t in ("true", "false"):
@@ -497,10 +506,10 @@ class Executor:
         if m:
             s = sort_of_type(m.group(2))
             return Val(bvconst(int(m.group(1)), s[1]), s)
-        m = re.match(r"^(?:[\w:<>, ]+::)?(\w+)::(\w+)$", t)
-        if m and m.group(1) in self.enums and m.group(2) in self.enums[m.group(1)]:
-            return ("enum", m.group(1), self.enums[m.group(1)].index(m.group(2)))
-        if re.match(r"^[A-Za-z_][\w:]*$", t) or t == "()" or t.startswith("PhantomData") or t.startswith("ZeroSized:") or t.startswith("{closure@"):
+        m = re.match(r"^((?:[\w:<>, ]+::)?\w+)::(\w+)$", t)
+        if m and self.enum_table(m.group(1)) and m.group(2) in self.enum_table(m.group(1)):
+            return ("enum", m.group(1), self.enum_table(m.group(1)).index(m.group(2)))
+        if t.startswith('"') or re.match(r"^[A-Za-z_][\w:]*$", t) or t == "()" or t.startswith("PhantomData") or t.startswith("ZeroSized:") or t.startswith("{closure@"):
             return ("unit",)      # field-less ADT constant (unit struct, PhantomData): no leaves
         raise Untranslatable("constant " + t)
 
@@ -727,12 +736,12 @@ class Executor:
             # struct / closure literal with named fields: fields are addressed by index in MIR
             self.clear_prefix(st, dst.key())
             base = dst.key()
-            em = re.match(r"^(?:[\w:]*::)?(\w+)(?:::<.*>)?::(\w+)$", m.group(1).strip())
-            if em and em.group(1) in self.enums and em.group(2) in self.enums[em.group(1)]:
+            em = re.match(r"^((?:[\w:]*::)?(\w+))(?:::<.*>)?::(\w+)$", m.group(1).strip())
+            if em and self.enum_table(em.group(1)) and em.group(3) in self.enum_table(em.group(1)):
                 # struct-like enum variant `Enum::Variant { f: .. }`
-                st.store[base + "#discr"] = Val(bvconst(self.enums[em.group(1)].index(em.group(2)), 64), ("bv", 64, True))
-                base = base + "@" + em.group(2)
-            elif em and em.group(1) in KNOWN_ENUMS:
+                st.store[base + "#discr"] = Val(bvconst(self.enum_table(em.group(1)).index(em.group(3)), 64), ("bv", 64, True))
+                base = base + "@" + em.group(3)
+            elif em and em.group(2) in KNOWN_ENUMS:
                 raise Untranslatable("struct-like variant of " + em.group(1))
             for i, part in enumerate(split_top(m.group(2))):
                 fm = re.match(r"^(\w+): (.*)$", part)
@@ -768,7 +777,7 @@ class Executor:
                 tyname, variant = None, None
                 base = dst.key()
             else:
-                table = KNOWN_ENUMS.get(tyname) or self.enums.get(tyname)
+                table = KNOWN_ENUMS.get(tyname) or self.enum_table(m.group(1))
                 if table is None or variant not in table:
                     raise Untranslatable("enum constructor %s::%s" % (tyname, variant))
                 st.store[dst.key() + "#discr"] = Val(bvconst(table.index(variant), 64), ("bv", 64, True))
@@ -780,7 +789,7 @@ class Executor:
         m = re.match(r"^([\w:]+?)(?:::<.*>)?::(\w+)$", rhs)
         if m:
             tyname = m.group(1).split("::")[-1]
-            table = {"Option": ["None", "Some"]}.get(tyname) or self.enums.get(tyname)
+            table = {"Option": ["None", "Some"]}.get(tyname) or self.enum_table(m.group(1))
             if table and m.group(2) in table:
                 st.store[dst.key() + "#discr"] = Val(bvconst(table.index(m.group(2)), 64), ("bv", 64, True))
                 return
@@ -1066,6 +1075,12 @@ def scan_enums(src_root):
                 if m.group(1) in enums and enums[m.group(1)] != variants:
                     ambiguous.add(m.group(1))
                 enums[m.group(1)] = variants
+                # also under `<module>::<Name>` (MIR prints paths relative to the crate root)
+                rel = os.path.relpath(os.path.join(d, fn), src_root)[:-3].split(os.sep)
+                if rel[-1] in ("mod", "lib"):
+                    rel = rel[:-1]
+                if rel:
+                    enums[rel[-1] + "::" + m.group(1)] = variants
     for a in ambiguous:
         enums.pop(a, None)
     return enums
